@@ -8,6 +8,7 @@ same instance is loaded into Django and SQLAlchemy (in-memory SQLite); both shor
 expected parents (hence agree with each other).
 """
 import json
+import os
 
 import backends
 import project
@@ -127,8 +128,12 @@ def run(ctx):
                 ctx.merge(part)
         _PARENT = None
     else:
+        # first the exhaustive Post enumerations (replayed by forked workers, before this process opens any database),
+        # then everything else in this process
         for inst in (0, 1):
-            run_instance(ctx, inst)
+            run_instance(ctx, inst, "big")
+        for inst in (0, 1):
+            run_instance(ctx, inst, "rest")
     ctx.exhaustive = False
 
 
@@ -144,12 +149,10 @@ def _inst_worker(inst):
             "kf_hit": sub.kf.hit, "states": sub.states, "transitions": sub.transitions, "tlc_cmds": sub.tlc_cmds}
 
 
-def run_instance(ctx, inst):
+def run_instance(ctx, inst, phase="all"):
     quick = ctx.tier == "quick"
-    dj = backends.RelDjango()
-    sa = backends.RelSa()
     keep = lambda r: r.get("k") in ("case", "db")
-    loaded = False
+    fix = None if not quick else _fixtures(inst, None)
     for root in ("Post", "Author", "Org"):
         # Org.authors and Post.authors share their name: Org runs after Post resolved it
         plans = [(1, None), (4, 300 if root == "Post" else 100)] if quick else [(2, None), (5, 4000 if root == "Post" else 1500)]
@@ -159,18 +162,35 @@ def run_instance(ctx, inst):
         for mo, sim in plans:
             consts = {"MaxOps": mo, "Root": '"%s"' % root, "Inst": inst}
             w = 8 if quick else 16
+            big = (not quick) and sim is None and root == "Post"
+            if (phase == "big" and not big) or (phase == "rest" and big):
+                continue
+            raw = os.path.join(tlc.BUILD, "c04_export_%d.txt" % os.getpid()) if big else None
             if sim:
                 res = tlc.run("MC_C04", constants=consts, simulate=max(1, sim // w), depth=40, seed=ctx.seed + 41 + inst,
                               keep_lines=keep, timeout=7000, heap="12g" if not quick else "5g", check_count=False, workers=w)
             else:
-                res = tlc.run("MC_C04", constants=consts, keep_lines=keep, timeout=7000, heap="12g" if not quick else "5g", workers=w)
+                res = tlc.run("MC_C04", constants=consts, keep_lines=keep, timeout=7000, heap="12g" if not quick else "5g", workers=w,
+                              raw_out=raw)
             ctx.add_tlc(res)
-            if not loaded:
-                db = [r for r in res.records if r["k"] == "db"][0]["db"]
-                dj.load(db)
-                sa.load(db)
-                loaded = True
-                total = {"Post": len(db["Post"]), "Author": len(db["Author"]), "Org": len(db["Org"])}
+            if big:
+                # ~400 k filters x three ORM entry points: decoded and replayed in slices by forked workers, each with its
+                # own Django / SQLAlchemy fixtures (created after the fork; no connection crosses it)
+                global _JOB
+                _JOB = inst
+                try:
+                    n = ctx.parallel_file(raw, _check_slice, keep=lambda r: r.get("k") in ("case", "db"), nproc=12, batch=2000)
+                finally:
+                    os.unlink(raw)
+                    _JOB = None
+                if n != res.distinct:
+                    raise tlc.MachineryError("C04: %d exported lines decoded, TLC reports %d distinct states" % (n, res.distinct))
+                continue
+            if fix is None:
+                fix = _fixtures(inst, [r for r in res.records if r["k"] == "db"][0]["db"])
+            elif fix[3] is None:
+                fix = _fixtures(inst, [r for r in res.records if r["k"] == "db"][0]["db"])
+            dj, sa, total, _ = fix
             for r in res.records:
                 if r["k"] != "case":
                     continue
@@ -179,6 +199,43 @@ def run_instance(ctx, inst):
                     continue
                 seen.add(kx)
                 check_case(ctx, r, inst, dj, sa, total)
+
+
+_FIX = {}
+_JOB = None
+
+
+def _fixtures(inst, db):
+    """Django + SQLAlchemy fixtures of this process for database instance `inst` (loaded once a db record is known)"""
+    key = (os.getpid(), inst)
+    if key not in _FIX:
+        _FIX.clear()
+        _FIX[key] = [backends.RelDjango(), backends.RelSa(), None, None]
+    f = _FIX[key]
+    if db is not None and f[3] is None:
+        f[0].load(db)
+        f[1].load(db)
+        f[2] = {"Post": len(db["Post"]), "Author": len(db["Author"]), "Org": len(db["Org"])}
+        f[3] = True
+    return f
+
+
+_DB_OF = {}
+
+
+def _check_slice(ctx, records):
+    inst = _JOB
+    for r in records:
+        if r["k"] == "db":
+            _DB_OF[inst] = r["db"]
+    if inst not in _DB_OF:
+        # the db record is printed with the initial state, i.e. in the first byte range only: fetch it from the generator
+        res = tlc.run("MC_C04", constants={"MaxOps": 0, "Root": '"Post"', "Inst": inst}, keep_lines=lambda r: r.get("k") == "db", workers=2)
+        _DB_OF[inst] = res.records[0]["db"]
+    dj, sa, total, _ = _fixtures(inst, _DB_OF[inst])
+    for r in records:
+        if r["k"] == "case":
+            check_case(ctx, r, inst, dj, sa, total)
 
 
 def check_case(ctx, r, inst, dj, sa, total):
